@@ -108,6 +108,16 @@ def exParams : Params := ⟨0, 5, 1 / 1000000, 1 / 10000, 30⟩
 
 example : cleanDrawing exParams exBefore exAfter exSeps = true := by decide +kernel
 
+-- non-vacuity of sizes_by_id: both hypotheses hold jointly on exBefore / exAfter (node 2 moved, size kept)
+example : exBefore.nodes[1].w = exAfter.nodes[1].w ∧ exBefore.nodes[1].h = exAfter.nodes[1].h :=
+  sizes_by_id exBefore exAfter (by decide +kernel) (by decide +kernel)
+    exAfter.nodes[1] (List.getElem_mem _) exBefore.nodes[1] (List.getElem_mem _) (by decide +kernel)
+
+-- non-vacuity of noNodeOverlap_zero_sound: (5,0) is strictly inside node 1's box, hence not inside node 2's
+example : ¬ (StrictlyInside (exAfter.nodes[0]).box ⟨5, 0⟩ ∧ StrictlyInside (exAfter.nodes[1]).box ⟨5, 0⟩) :=
+  noNodeOverlap_zero_sound exAfter (by decide +kernel) 0 1 (by decide) (by decide) (by decide) ⟨5, 0⟩
+example : StrictlyInside (exAfter.nodes[0]).box ⟨5, 0⟩ := by decide +kernel
+
 /-- a diagonal leg is rejected -/
 example : routeOrthogonal [⟨0, 0⟩, ⟨100, 1⟩] = false := by decide +kernel
 /-- a route through a third node is rejected -/
